@@ -129,7 +129,25 @@ CHECKS["C17"] = dict(
     technique="TLA+ operational semantics of the dissector fragment language; refinement against the wire model's behaviours decided by TLC on the regenerated generator output",
 )
 
-NOT_YET = {}
+CHECKS["C19"] = dict(
+    category="exploration",
+    text="spec/Features.tla - cargo feature configurations as a state machine (Enable(f) closing under the Cargo.toml implications incl. implicit optional-dependency features and dep/feat forwarding into wow_world_base) - is model checked by TLC over the full powerset of all three crates (840 closed configurations) with the invariant GuardClosed (every item present under a configuration only names items present under it) on a text-level extraction of 50,759 cfg-guarded items and 62,831 resolved references (435 classes). TLC prints the configuration lists (quick: TLC-checked pairwise covering array + singles + all + default + documented command lines = 42; thorough: core powerset x auxiliary off/on = 526, base and login complete); each is compiled with cargo check --no-default-features --features F in a scratch copy of the current tree and rustc's verdict compared with the model's prediction; features named in the crate docs must be declared. Differential: the C01 quick behaviours are replayed against an all-features build and a generated sync+one-expansion build (vh2) and must get identical verdicts.",
+    design_ref="DESIGN.md section 5 C19, notes/C19.md",
+    note="Whether a configuration builds is rustc's verdict, not the specification's (hence exploration). Trusted: tools/features_front.py (text-level, approximate: unqualified uses, method calls, macros, traits are not followed; misses are only caught by the configurations actually compiled), Cargo feature semantics as transcribed, the offline registry, library target only (cfg(test) off), supported set = every subset because pre-release.sh runs cargo hack --feature-powerset.",
+    technique="TLA+ configuration machine model-checked with TLC (closure invariant over the full feature powerset); spec-emitted configurations replayed into cargo check; differential replay of spec-generated codec behaviours against two differently featured builds",
+)
+CHECKS["C06"] = dict(
+    category="model_checking",
+    text="spec/ChunkedRead.tla (transport buffer -> partly filled read_exact request -> bytes returned; Deliver, ReturnPending, CompleteRead, Eof) is model checked - NoLoss, CompleteGuard, ScheduleIndependent, InOrder; termination under weak fairness with unbounded Pending - for the read script of every login behaviour and of a pool of world messages; every transport schedule of messages up to 12 (16) bytes (all chunk compositions x Eof at every prefix x Pending placements, bounds in the evidence) and 64 (1,024) simulated schedules per longer length are replayed into scripted tokio / futures-io transports under all three generated variants of the login opcode-enum readers of the 6 protocol versions, expect_*_message for every login message, read_protocol, read_initial_message, every login writer, the world read_unencrypted / write_unencrypted of 3 expansions x 2 directions and typed world expect helpers; every async outcome is compared with the blocking outcome on the same delivered content (279k schedules / 35M async runs quick).",
+    design_ref="DESIGN.md section 5 C06, notes/C06.md",
+    note="Trusted: the transport abstraction (bytes per poll, Pending with wake, close at a prefix), read scripts from WowmWire events, the hand-polled futures with a counting waker (a lost wake-up is the verdict 'stuck'), generated entry points (tools/gen_chunks.py), TLC. Full Pending enumeration only up to length 7 (9); compressed world messages excluded from the pool.",
+    technique="TLA+ spec model-checked with TLC (exhaustive, -simulate, liveness); TLC-generated transport schedules replayed into the real tokio / async-std / blocking variants with the model's ScheduleIndependent invariant as differential oracle",
+)
+
+NOT_YET = {
+    "C07": "not built in this round: needs a constructive grammar spec (WowmGrammar.tla) whose generated programs are compiled by the generator and rustc per batch; the wire model, front-end and replay it would reuse exist (DESIGN.md section 5 C07)",
+    "C18": "not built in this round: the definition-equality half needs the doc re-parser, the example half can reuse the decoder operators of spec/WowmWire.tla (Dec) that were added late (DESIGN.md section 5 C18)",
+}
 
 def main():
     props = [json.loads(l)["id"] for l in open(os.path.join(HERE, "properties.jsonl"))]
